@@ -10,7 +10,7 @@ import DnsVerif.Model.Serve
 import DnsVerif.Proofs.MultiStore
 
 namespace DnsVerif.RevOrder
-open DnsVerif DnsVerif.Rdb DnsVerif.Name
+open DnsVerif DnsVerif.Rdb DnsVerif.Name DnsVerif.Serve DnsVerif.Loc
 
 /-! ### the byte order: small facts -/
 
@@ -1303,5 +1303,990 @@ theorem findMapSorted_eq_spec (hrep : RepMapsV2 s mtype maps) (hmt : mtype.lengt
   exact this
 
 end FirstV2
+
+/-! ### resource records: the two layouts -/
+
+abbrev marker : Bytes := Generated.dnsdata_ResourceRecordsKeyMarker
+
+theorem marker_length : marker.length = 2 := rfl
+
+/-- rows of an owner (labels in query order) for a location -/
+abbrev Rows := List Bytes → Bytes → List Bytes
+
+/-- v1 layout: `loc ++ pack owner` -/
+def RepRRV1 (s : Store) (rows : Rows) : Prop :=
+  ∀ z loc, NameOK z → loc.length = 2 → s.get (loc ++ pack z) = rows z loc
+
+/-- v2 layout: every key that starts with the marker is a resource-record key
+`marker ++ pack (reverse owner) ++ loc` of a well-formed owner with a 2-byte location, or has a byte
+`≥ 64` right after the marker (the features key `\000o_features`: `'_' = 95`); keys that do not
+start with the marker are arbitrary -/
+structure RepRRV2 (s : Store) (rows : Rows) : Prop where
+  keys : ∀ e ∈ s, e.1.take 2 = marker →
+    (∃ z loc, NameOK z ∧ loc.length = 2 ∧ e.1 = Key (List.reverse z) loc) ∨
+    (∃ b rest, e.1 = marker ++ b :: rest ∧ 64 ≤ b.toNat)
+  get : ∀ z loc, NameOK z → loc.length = 2 → s.get (Key (List.reverse z) loc) = rows z loc
+
+/-- labels of a query name: 1…63 bytes -/
+def NameOK64 (ls : List Bytes) : Prop := ∀ l ∈ ls, 0 < l.length ∧ l.length < 64
+
+instance (ls : List Bytes) : Decidable (NameOK64 ls) := by unfold NameOK64; infer_instance
+
+theorem NameOK64.ok {ls : List Bytes} (h : NameOK64 ls) : NameOK ls :=
+  fun l hl => ⟨(h l hl).1, by have := (h l hl).2; omega⟩
+
+theorem NameOK64.prefix {a n : List Bytes} (h : NameOK64 n) (hp : a <+: n) : NameOK64 a := by
+  obtain ⟨t, rfl⟩ := hp; exact fun l hl => h l (List.mem_append_left _ hl)
+
+/-- a resource-record key of a query-like name is below every "junk" key under the marker -/
+theorem key_lt_junk {c : List Bytes} (hc : NameOK64 c) (L : Bytes) {b : UInt8} (rest : Bytes)
+    (hb : 64 ≤ b.toNat) : bytesLt (Key c L) (marker ++ b :: rest) = true := by
+  unfold Key K
+  rw [List.append_assoc, bytesLt_append_left]
+  cases c with
+  | nil => exact bytesLt_cons_of_lt (by show (0 : UInt8).toNat < b.toNat; have : (0 : UInt8).toNat = 0 := rfl; omega) _ _
+  | cons x c =>
+    rw [pack_cons]
+    have hx := hc x (List.mem_cons_self ..)
+    have h1 : (UInt8.ofNat x.length).toNat = x.length := by
+      rw [UInt8.toNat_ofNat']; exact Nat.mod_eq_of_lt (by omega)
+    exact bytesLt_cons_of_lt (by rw [h1]; omega) _ _
+
+section RR
+variable {s : Store} {rows : Rows}
+
+theorem RepRRV2.get_rev (hrep : RepRRV2 s rows) {a : List Bytes} (ha : NameOK a) {loc : Bytes}
+    (hl : loc.length = 2) : s.get (Key a loc) = rows a.reverse loc := by
+  have := hrep.get a.reverse loc ha.reverse hl
+  rwa [List.reverse_reverse] at this
+
+theorem RepRRV2.present (hrep : RepRRV2 s rows) {a : List Bytes} (ha : NameOK a) {loc : Bytes}
+    (hl : loc.length = 2) (h : rows a.reverse loc ≠ []) : ∃ e ∈ s, e.1 = Key a loc := by
+  apply get_ne_nil_mem; rw [hrep.get_rev ha hl]; exact h
+
+theorem RepRRV2.absent (hrep : RepRRV2 s rows) {a : List Bytes} (ha : NameOK a) {loc : Bytes}
+    (hl : loc.length = 2) (h : ∀ e ∈ s, e.1 ≠ Key a loc) : rows a.reverse loc = [] := by
+  rw [← hrep.get_rev ha hl]; exact get_eq_nil_of_not_mem h
+
+/-- what a seek at the resource-record key of a query-like name can return -/
+theorem rr_seek_cases (hrep : RepRRV2 s rows) {c : List Bytes} (hc : NameOK64 c) {L : Bytes} (hL : L.length = 2) :
+    ((s.seekForPrev (Key c L) = none ∨
+        ∃ fk vals, s.seekForPrev (Key c L) = some (fk, vals) ∧ fk ≠ Key c L ∧ fk.take 2 ≠ marker) ∧
+      ∀ a loc, NameOK a → loc.length = 2 → bytesLe (Key a loc) (Key c L) = true → rows a.reverse loc = []) ∨
+    (s.seekForPrev (Key c L) = some (Key c L, rows c.reverse L)) ∨
+    (∃ m l'' vals, NameOK m ∧ l''.length = 2 ∧ s.seekForPrev (Key c L) = some (Key m l'', vals) ∧
+      Key m l'' ≠ Key c L ∧ bytesLe (Key m l'') (Key c L) = true ∧ rows c.reverse L = [] ∧
+      ∀ a loc, NameOK a → loc.length = 2 → bytesLe (Key a loc) (Key c L) = true → rows a.reverse loc ≠ [] →
+        bytesLe (Key a loc) (Key m l'') = true) := by
+  cases hs : s.seekForPrev (Key c L) with
+  | none =>
+    left
+    refine ⟨Or.inl rfl, fun a loc ha hl hle => hrep.absent ha hl fun e he heq => ?_⟩
+    have := seekForPrev_none.1 hs e he
+    rw [heq, hle] at this; cases this
+  | some r =>
+    obtain ⟨hmem, hle, hget, hmax⟩ := seekForPrev_some hs
+    by_cases hk : r.1 = Key c L
+    · right; left
+      have : r = (Key c L, rows c.reverse L) := by
+        rw [← hrep.get_rev hc.ok hL, ← hk, hget]
+      rw [this]
+    · have hmax' : ∀ a loc, NameOK a → loc.length = 2 → bytesLe (Key a loc) (Key c L) = true →
+          rows a.reverse loc ≠ [] → bytesLe (Key a loc) r.1 = true := by
+        intro a loc ha hl hale hne
+        obtain ⟨e, he, heq⟩ := hrep.present ha hl hne
+        have := hmax e he (by rw [heq]; exact hale)
+        rwa [heq] at this
+      by_cases hpre : r.1.take 2 = marker
+      · rcases hrep.keys r hmem hpre with ⟨z, loc, hz, hl, hkey⟩ | ⟨b, rest, hkey, hb⟩
+        · right; right
+          refine ⟨z.reverse, loc, r.2, hz.reverse, hl, by rw [← hkey], by rw [← hkey]; exact hk,
+            by rw [← hkey]; exact hle, ?_, by rw [← hkey]; exact hmax'⟩
+          cases hrw : rows c.reverse L with
+          | nil => rfl
+          | cons x xs =>
+            exfalso
+            have := hmax' c L hc.ok hL (bytesLe_refl _) (by rw [hrw]; simp)
+            exact hk (bytesLe_antisymm hle this)
+        · exfalso
+          have := key_lt_junk hc L rest hb
+          rw [← hkey] at this
+          rw [bytesLe_iff.1 hle] at this; cases this
+      · left
+        refine ⟨Or.inr ⟨r.1, r.2, rfl, hk, hpre⟩, fun a loc ha hl hale => ?_⟩
+        cases hrw : rows a.reverse loc with
+        | nil => rfl
+        | cons x xs =>
+          exfalso
+          have h1 := hmax' a loc ha hl hale (by rw [hrw]; simp)
+          have e1 : Key a loc = marker ++ (pack a ++ loc) := by simp [Key, K]
+          have e2 : Key c L = marker ++ (pack c ++ L) := by simp [Key, K]
+          rw [e1] at h1; rw [e2] at hle
+          obtain ⟨w2, hw2⟩ := prefix_convex marker _ _ _ h1 hle
+          apply hpre
+          rw [hw2]; exact take_prefix_of_length marker_length
+
+/-- **Skip lemma.** Let `Key m l''` be the greatest key `≤ Key c L` (`c` a prefix of the reversed
+query). Every name strictly between the common label prefix of `c` and `m` and `c` itself owns no
+rows at all, for any location; and if `m ≠ c`, `c` owns no rows for a location `≤ L`. -/
+theorem skip_lemma {c m : List Bytes} (hc : NameOK c) (hm : NameOK m)
+    {L l'' : Bytes}
+    (hle : bytesLe (Key m l'') (Key c L) = true)
+    (hmax : ∀ a loc, NameOK a → loc.length = 2 → bytesLe (Key a loc) (Key c L) = true →
+      rows a.reverse loc ≠ [] → bytesLe (Key a loc) (Key m l'') = true) :
+    (∀ a, a <+: c → a ≠ c → ¬ a <+: lcp c m → ∀ loc, loc.length = 2 → rows a.reverse loc = []) ∧
+    (m ≠ c → ∀ loc, loc.length = 2 → bytesLe loc L = true → rows c.reverse loc = []) := by
+  have key : ∀ a, a <+: c → ∀ loc, loc.length = 2 → bytesLe (Key a loc) (Key c L) = true →
+      rows a.reverse loc ≠ [] → a <+: m := by
+    intro a ha loc hl hale hne
+    have h1 := hmax a loc (hc.prefix ha) hl hale hne
+    exact key_sandwich marker hc hm ha h1 hle
+  refine ⟨fun a ha hne hnp loc hl => ?_, fun hmc loc hl hloc => ?_⟩
+  · cases hrw : rows a.reverse loc with
+    | nil => rfl
+    | cons x xs =>
+      exfalso
+      have := key a ha loc hl (bytesLe_of_lt (K_lt_of_proper_prefix marker hc ha hne _ _)) (by rw [hrw]; simp)
+      exact hnp (prefix_lcp ha this)
+  · cases hrw : rows c.reverse loc with
+    | nil => rfl
+    | cons x xs =>
+      exfalso
+      have hcm := key c (List.prefix_refl c) loc hl (by
+        show bytesLe (K marker c loc) (K marker c L) = true
+        rw [key_le_same_name]; exact hloc) (by rw [hrw]; simp)
+      have := K_lt_of_proper_prefix marker hm hcm (fun e => hmc e.symm) L l''
+      rw [show K marker c L = Key c L from rfl, show K marker m l'' = Key m l'' from rfl,
+        bytesLe_iff.1 hle] at this
+      cases this
+
+end RR
+
+/-! ### the closest-key search `find` -/
+
+/-- `tryForEach` of `find` -/
+def tryFE {σ : Type} (s : Store) (onRows : List Bytes → σ → σ) (k : Bytes) (st : σ) : Option Bytes × σ :=
+  match s.seekForPrev k with
+  | none => (none, st)
+  | some (fk, vals) => if fk = k then (some fk, onRows vals st) else (some fk, st)
+
+/-- the part of one `find` iteration after `postIterationCheck` allowed to continue -/
+def afterPost {σ : Type} (v : View) (rev : Bytes) (pre : Nat → σ → Option σ) (onRows : List Bytes → σ → σ)
+    (post : σ → σ × Bool) (fuel qLength : Nat) (k : Option Bytes) (st4 : σ) : R σ :=
+  let kk := k.getD []
+  if kk.length < 2 ∨ kk.take 2 ≠ marker then .ok st4
+  else if qLength = 1 then .ok st4
+  else
+    if kk.length < 4 then .panic else
+    let foundLabel := (kk.drop 2).take (kk.length - 4)
+    if foundLabel.isEmpty then .panic else
+    let next : Option Nat :=
+      if rev.take (qLength - 1) = foundLabel.take (foundLabel.length - 1) then
+        lengthWithoutLastLabel rev qLength 256 0 0
+      else (commonPrefix rev foundLabel (rev.length + 1) 0).map (· + 1)
+    match next with
+    | none => .panic
+    | some nl => findGo v rev pre onRows post fuel nl st4
+
+/-- the "same name, other location" second lookup of `find` -/
+def secondTry {σ : Type} (v : View) (onRows : List Bytes → σ → σ) (nameKey key : Bytes)
+    (r1 : Option Bytes × σ) : Option Bytes × σ :=
+  match r1.1 with
+  | some fk =>
+    if v.loc ≠ [0, 0] ∧ fk.length = key.length ∧ fk.take (key.length - 2) = nameKey then
+      tryFE v.store onRows (nameKey ++ [0, 0]) r1.2
+    else r1
+  | none => r1
+
+theorem findGo_succ {σ : Type} (v : View) (rev : Bytes) (pre : Nat → σ → Option σ)
+    (onRows : List Bytes → σ → σ) (post : σ → σ × Bool) (fuel qLength : Nat) (st : σ) :
+    findGo v rev pre onRows post (fuel + 1) qLength st =
+      match pre qLength st with
+      | none => .ok st
+      | some st1 =>
+        if qLength = 0 then .panic else
+        let nameKey := marker ++ rev.take (qLength - 1) ++ [0]
+        let key := nameKey ++ v.loc
+        let r2 := secondTry v onRows nameKey key (tryFE v.store onRows key st1)
+        let p := post r2.2
+        if ¬ p.2 then .ok p.1 else afterPost v rev pre onRows post fuel qLength r2.1 p.1 := by
+  rw [findGo]
+  rfl
+
+theorem tryFE_fst {σ : Type} (s : Store) (onRows : List Bytes → σ → σ) (k : Bytes) (st : σ) :
+    (tryFE s onRows k st).1 = (s.seekForPrev k).map (·.1) := by
+  unfold tryFE
+  cases s.seekForPrev k with
+  | none => rfl
+  | some r => obtain ⟨fk, vals⟩ := r; by_cases h : fk = k <;> simp [h]
+
+theorem tryFE_snd {σ : Type} (s : Store) (onRows : List Bytes → σ → σ) (honil : ∀ st, onRows [] st = st)
+    (k : Bytes) (st : σ) : (tryFE s onRows k st).2 = onRows (s.get k) st := by
+  unfold tryFE
+  cases hs : s.seekForPrev k with
+  | none =>
+    have : s.get k = [] := get_eq_nil_of_not_mem fun e he heq => by
+      have := seekForPrev_none.1 hs e he
+      rw [heq, bytesLe_refl] at this; cases this
+    rw [this, honil]
+  | some r =>
+    obtain ⟨fk, vals⟩ := r
+    by_cases h : fk = k
+    · subst h
+      have := (seekForPrev_some hs).2.2.1
+      simp only at this
+      simp [this]
+    · have : s.get k = [] := get_eq_nil_of_not_mem fun e he heq => by
+        obtain ⟨vals', hs', _⟩ := seekForPrev_of_mem ⟨e, he, heq⟩
+        rw [hs] at hs'; cases hs'; exact h rfl
+      simp [h, this, honil]
+
+theorem rrkey_parts (m : List Bytes) {l : Bytes} (hl : l.length = 2) :
+    ¬ ((Key m l).length < 2 ∨ (Key m l).take 2 ≠ marker) ∧ ¬ (Key m l).length < 4 ∧
+    ((Key m l).drop 2).take ((Key m l).length - 4) = pack m := by
+  have e : Key m l = marker ++ (pack m ++ l) := by simp [Key, K]
+  have hlen : (Key m l).length = 2 + ((pack m).length + 2) := by
+    rw [e, List.length_append, List.length_append, hl]; rfl
+  refine ⟨?_, by omega, ?_⟩
+  · intro h
+    rcases h with h | h
+    · omega
+    · exact h (by rw [e]; exact take_prefix_of_length marker_length)
+  · rw [hlen, e]
+    have : (marker ++ (pack m ++ l)).drop 2 = pack m ++ l := List.drop_left' marker_length
+    rw [this]
+    have : 2 + ((pack m).length + 2) - 4 = (pack m).length := by omega
+    rw [this]; simp
+
+theorem pack_inj {a b : List Bytes} (ha : NameOK a) (hb : NameOK b) (h : pack a = pack b) : a = b := by
+  have h1 := unpack_pack a (a.length + b.length + 1) ha (by omega)
+  have h2 := unpack_pack b (a.length + b.length + 1) hb (by omega)
+  rw [h, h2] at h1
+  exact (Option.some.inj h1).symm
+
+theorem flat_inj {a b : List Bytes} (ha : NameOK a) (hb : NameOK b) (h : flat a = flat b) : a = b :=
+  pack_inj ha hb (by rw [pack_eq, pack_eq, h])
+
+theorem take_flat_of_prefix {c n : List Bytes} (hc : c <+: n) :
+    (pack n).take ((pack c).length - 1) = flat c := by
+  obtain ⟨t, rfl⟩ := hc
+  rw [pack_append, pack_length]; simp
+
+section Tail
+variable {σ : Type} {s : Store} {rows : Rows}
+
+theorem afterPost_stop (v : View) (rev : Bytes) (pre : Nat → σ → Option σ) (onRows : List Bytes → σ → σ)
+    (post : σ → σ × Bool) (fuel qLength : Nat) (st4 : σ) {k : Option Bytes}
+    (h : k = none ∨ ∃ fk, k = some fk ∧ fk.take 2 ≠ marker) :
+    afterPost v rev pre onRows post fuel qLength k st4 = .ok st4 := by
+  unfold afterPost
+  rcases h with rfl | ⟨fk, rfl, h⟩
+  · simp
+  · simp only [Option.getD_some]; rw [if_pos (Or.inr h)]
+
+theorem afterPost_root (v : View) (rev : Bytes) (pre : Nat → σ → Option σ) (onRows : List Bytes → σ → σ)
+    (post : σ → σ × Bool) (fuel : Nat) (st4 : σ) {m : List Bytes} {l : Bytes} (hl : l.length = 2) :
+    afterPost v rev pre onRows post fuel 1 (some (Key m l)) st4 = .ok st4 := by
+  unfold afterPost
+  simp only [Option.getD_some]
+  rw [if_neg (rrkey_parts m hl).1, if_pos trivial]
+
+theorem afterPost_same (v : View) (pre : Nat → σ → Option σ) (onRows : List Bytes → σ → σ)
+    (post : σ → σ × Bool) (fuel : Nat) (st4 : σ) {n c : List Bytes} {l : Bytes} (hl : l.length = 2)
+    (hn : NameOK n) (hlen : (pack n).length ≤ 256) (hc : c <+: n) (hne : c ≠ []) :
+    afterPost v (pack n) pre onRows post fuel (pack c).length (some (Key c l)) st4 =
+      findGo v (pack n) pre onRows post fuel (pack c.dropLast).length st4 := by
+  unfold afterPost
+  simp only [Option.getD_some]
+  obtain ⟨h1, h2, h3⟩ := rrkey_parts c hl
+  have hc1 : (pack c).length ≠ 1 := by
+    have := length_le_flat_length c
+    have h2 : c.length ≠ 0 := fun h => hne (List.eq_nil_of_length_eq_zero h)
+    rw [pack_length]; omega
+  rw [if_neg h1, if_neg hc1, if_neg h2, h3]
+  have hemp : (pack c).isEmpty = false := by rw [pack_eq]; simp
+  rw [hemp]
+  simp only [Bool.false_eq_true, if_false]
+  rw [take_flat_of_prefix hc]
+  have : (pack c).take ((pack c).length - 1) = flat c := take_flat_of_prefix (List.prefix_refl c)
+  rw [this, if_pos rfl]
+  obtain ⟨t, rfl⟩ := hc
+  have hcl : (pack c).length ≤ 256 := by
+    have := flat_length_le_of_prefix (List.prefix_append c t)
+    rw [pack_length] at hlen ⊢; omega
+  rw [lwl_prefix hn.of_append_left hne hcl]
+
+theorem afterPost_other (v : View) (pre : Nat → σ → Option σ) (onRows : List Bytes → σ → σ)
+    (post : σ → σ × Bool) (fuel : Nat) (st4 : σ) {n c m : List Bytes} {l : Bytes} (hl : l.length = 2)
+    (hn : NameOK n) (hm : NameOK m) (hc : c <+: n) (hne : c ≠ []) (hcm : c ≠ m) (hnm : n ≠ m) :
+    afterPost v (pack n) pre onRows post fuel (pack c).length (some (Key m l)) st4 =
+      findGo v (pack n) pre onRows post fuel (pack (lcp n m)).length st4 := by
+  unfold afterPost
+  simp only [Option.getD_some]
+  obtain ⟨h1, h2, h3⟩ := rrkey_parts m hl
+  have hc1 : (pack c).length ≠ 1 := by
+    have := length_le_flat_length c
+    have h2 : c.length ≠ 0 := fun h => hne (List.eq_nil_of_length_eq_zero h)
+    rw [pack_length]; omega
+  rw [if_neg h1, if_neg hc1, if_neg h2, h3]
+  have hemp : (pack m).isEmpty = false := by rw [pack_eq]; simp
+  rw [hemp]
+  simp only [Bool.false_eq_true, if_false]
+  rw [take_flat_of_prefix hc]
+  have : (pack m).take ((pack m).length - 1) = flat m := take_flat_of_prefix (List.prefix_refl m)
+  rw [this, if_neg (fun e => hcm (flat_inj (hn.prefix hc) hm e))]
+  have hcp := commonPrefix_spec n m [] [] ((pack n).length + 1) hn hm rfl
+    (by have := length_le_flat_length n; rw [pack_length]; omega)
+  simp only [List.nil_append, List.length_nil, Nat.zero_add] at hcp
+  rw [if_neg hnm] at hcp
+  rw [hcp]
+  simp only [Option.map_some, pack_length]
+
+end Tail
+
+
+/-- names with no rows at all, for any 2-byte location -/
+def NoRows (rows : Rows) (a : List Bytes) : Prop := ∀ loc : Bytes, loc.length = 2 → rows a.reverse loc = []
+
+section Sem
+variable {σ : Type} {s : Store} {rows : Rows}
+
+/-- what happens after `postIterationCheck` said "continue", in terms of the seek at `Key c Ls` that
+produced the last key: either the search stops and no proper ancestor of `c` owns rows, or it goes on
+at a proper ancestor `c'` of `c` and every name strictly between owns no rows -/
+theorem afterPost_sem (hrep : RepRRV2 s rows) (v : View) (pre : Nat → σ → Option σ)
+    (onRows : List Bytes → σ → σ) (post : σ → σ × Bool) (fuel : Nat) (st4 : σ)
+    {n c : List Bytes} (hn : NameOK64 n) (hlen : (pack n).length ≤ 256) (hc : c <+: n)
+    {Ls : Bytes} (hLs : Ls.length = 2) :
+    (afterPost v (pack n) pre onRows post fuel (pack c).length ((s.seekForPrev (Key c Ls)).map (·.1)) st4 = .ok st4 ∧
+      ∀ a, a <+: c → a ≠ c → NoRows rows a) ∨
+    ∃ c', c' <+: c ∧ c' ≠ c ∧ (∀ a, a <+: c → a ≠ c → ¬ a <+: c' → NoRows rows a) ∧
+      afterPost v (pack n) pre onRows post fuel (pack c).length ((s.seekForPrev (Key c Ls)).map (·.1)) st4 =
+        findGo v (pack n) pre onRows post fuel (pack c').length st4 := by
+  have hco : NameOK c := hn.ok.prefix hc
+  by_cases hnil : c = []
+  · -- the root: whatever was found, the search stops
+    left
+    subst hnil
+    refine ⟨?_, fun a ha hne => absurd (List.prefix_nil.1 ha) hne⟩
+    rcases rr_seek_cases hrep (hn.prefix hc) hLs with ⟨hA, _⟩ | hB | ⟨m, l'', vals, hm, hl'', hC, _⟩
+    · apply afterPost_stop
+      rcases hA with h | ⟨fk, vals, h, _, hpre⟩
+      · left; rw [h]; rfl
+      · right; exact ⟨fk, by rw [h]; rfl, hpre⟩
+    · rw [hB]; exact afterPost_root v _ pre onRows post fuel st4 hLs
+    · rw [hC]; exact afterPost_root v _ pre onRows post fuel st4 hl''
+  · have hdrop : ∃ c', c' = c.dropLast ∧ c' <+: c ∧ c' ≠ c ∧ ∀ a, a <+: c → a ≠ c → a <+: c' :=
+      ⟨_, rfl, List.dropLast_prefix c, fun e => by
+        have := congrArg List.length e; simp at this
+        have h2 : c.length ≠ 0 := fun h => hnil (List.eq_nil_of_length_eq_zero h)
+        omega, fun a ha hne => prefix_dropLast_of_proper ha hne⟩
+    rcases rr_seek_cases hrep (hn.prefix hc) hLs with ⟨hA, habs⟩ | hB | ⟨m, l'', vals, hm, hl'', hC, hne, hle, _, hmax⟩
+    · left
+      refine ⟨?_, fun a ha hne loc hl => habs a loc (hco.prefix ha) hl
+        (bytesLe_of_lt (K_lt_of_proper_prefix marker hco ha hne _ _))⟩
+      apply afterPost_stop
+      rcases hA with h | ⟨fk, vals, h, _, hpre⟩
+      · left; rw [h]; rfl
+      · right; exact ⟨fk, by rw [h]; rfl, hpre⟩
+    · right
+      obtain ⟨c', rfl, h1, h2, h3⟩ := hdrop
+      refine ⟨_, h1, h2, fun a ha hne hnp => absurd (h3 a ha hne) hnp, ?_⟩
+      rw [hB]
+      exact afterPost_same v pre onRows post fuel st4 hLs hn.ok hlen hc hnil
+    · right
+      by_cases hcm : c = m
+      · subst hcm
+        obtain ⟨c', rfl, h1, h2, h3⟩ := hdrop
+        refine ⟨_, h1, h2, fun a ha hne hnp => absurd (h3 a ha hne) hnp, ?_⟩
+        rw [hC]
+        exact afterPost_same v pre onRows post fuel st4 hl'' hn.ok hlen hc hnil
+      · -- `c` is not a prefix of `m`
+        have hpm : ¬ c <+: m := fun h => by
+          have := K_lt_of_proper_prefix marker hm h hcm Ls l''
+          rw [show K marker c Ls = Key c Ls from rfl, show K marker m l'' = Key m l'' from rfl,
+            bytesLe_iff.1 hle] at this
+          cases this
+        have hnm : n ≠ m := fun e => hpm (e ▸ hc)
+        have hp'c : lcp n m <+: c := by
+          rcases prefix_total (lcp_prefix_left n m) hc with h | h
+          · exact h
+          · exact absurd (h.trans (lcp_prefix_right n m)) hpm
+        have hp'ne : lcp n m ≠ c := fun e => hpm (e ▸ lcp_prefix_right n m)
+        refine ⟨lcp n m, hp'c, hp'ne, fun a ha hne hnp => ?_, ?_⟩
+        · have hsk := (skip_lemma (rows := rows) hco hm hle hmax).1 a ha hne fun h =>
+            hnp (prefix_lcp ((lcp_prefix_left c m).trans hc |> fun h' => h.trans h') (h.trans (lcp_prefix_right c m)))
+          exact hsk
+        · rw [hC]
+          exact afterPost_other v pre onRows post fuel st4 hl'' hn.ok hm hc hnil hcm hnm
+
+end Sem
+
+
+theorem zero_loc_le {L : Bytes} (hL : L.length = 2) : bytesLe [0, 0] L = true := by
+  match L, hL with
+  | [a, b], _ =>
+    rw [bytesLe_iff]
+    simp only [bytesLt]
+    have h0 : (0 : UInt8).toNat = 0 := rfl
+    rw [h0]
+    by_cases ha : a.toNat < 0
+    · omega
+    · rw [if_neg ha]
+      by_cases ha' : 0 < a.toNat
+      · rw [if_pos ha']
+      · rw [if_neg ha']
+        by_cases hb : b.toNat < 0
+        · omega
+        · rw [if_neg hb]
+          by_cases hb' : 0 < b.toNat
+          · rw [if_pos hb']
+          · rw [if_neg hb']
+
+theorem same_name_cond {m c : List Bytes} (hm : NameOK m) (hc : NameOK c) {l L : Bytes}
+    (hl : l.length = 2) (hL : L.length = 2) :
+    ((Key m l).length = (Key c L).length ∧ (Key m l).take ((Key c L).length - 2) = marker ++ pack c) ↔ m = c := by
+  have em : Key m l = (marker ++ pack m) ++ l := rfl
+  have ec : Key c L = (marker ++ pack c) ++ L := rfl
+  constructor
+  · rintro ⟨h1, h2⟩
+    rw [em, ec] at h1
+    simp only [List.length_append, hl, hL] at h1
+    have hlen : (pack m).length = (pack c).length := by omega
+    have e3 : (Key c L).length - 2 = (marker ++ pack m).length := by
+      rw [ec]; simp only [List.length_append, hL]; omega
+    rw [e3, em, List.take_left'  rfl] at h2
+    exact pack_inj hm hc (List.append_cancel_left h2)
+  · rintro rfl
+    refine ⟨by rw [em, ec]; simp [hl, hL], ?_⟩
+    have e3 : (Key m L).length - 2 = (marker ++ pack m).length := by
+      rw [ec]; simp only [List.length_append, hL]; omega
+    rw [e3, em, List.take_left' rfl]
+
+section Step
+variable {σ : Type} {s : Store} {rows : Rows}
+
+/-- the state after the row callbacks of one iteration at the name `c` -/
+def st3Of (rows : Rows) (onRows : List Bytes → σ → σ) (L : Bytes) (c : List Bytes) (st1 : σ) : σ :=
+  if L = [0, 0] then onRows (rows c.reverse [0, 0]) st1
+  else onRows (rows c.reverse [0, 0]) (onRows (rows c.reverse L) st1)
+
+theorem r2_sem (hrep : RepRRV2 s rows) (v : View) (hv : v.store = s) (hvl : v.loc.length = 2)
+    (onRows : List Bytes → σ → σ) (honil : ∀ st, onRows [] st = st) (st1 : σ)
+    {c : List Bytes} (hc : NameOK64 c) :
+    ∃ Ls : Bytes, Ls.length = 2 ∧
+      (secondTry v onRows (marker ++ pack c) (Key c v.loc) (tryFE v.store onRows (Key c v.loc) st1)).1 =
+        (s.seekForPrev (Key c Ls)).map (·.1) ∧
+      (secondTry v onRows (marker ++ pack c) (Key c v.loc) (tryFE v.store onRows (Key c v.loc) st1)).2 =
+        st3Of rows onRows v.loc c st1 := by
+  subst hv
+  have hco := hc.ok
+  have h1fst := tryFE_fst v.store onRows (Key c v.loc) st1
+  have h1snd := tryFE_snd v.store onRows honil (Key c v.loc) st1
+  rw [hrep.get_rev hco hvl] at h1snd
+  have hk0 : marker ++ pack c ++ [0, 0] = Key c [0, 0] := rfl
+  have h00 : ([0, 0] : Bytes).length = 2 := rfl
+  by_cases hL : v.loc = [0, 0]
+  · refine ⟨[0, 0], rfl, ?_, ?_⟩
+    · have : secondTry v onRows (marker ++ pack c) (Key c v.loc) (tryFE v.store onRows (Key c v.loc) st1) =
+          tryFE v.store onRows (Key c v.loc) st1 := by
+        unfold secondTry
+        cases (tryFE v.store onRows (Key c v.loc) st1).1 with
+        | none => rfl
+        | some fk => simp only []; rw [if_neg (fun h => h.1 hL)]
+      rw [this, h1fst, hL]
+    · have : secondTry v onRows (marker ++ pack c) (Key c v.loc) (tryFE v.store onRows (Key c v.loc) st1) =
+          tryFE v.store onRows (Key c v.loc) st1 := by
+        unfold secondTry
+        cases (tryFE v.store onRows (Key c v.loc) st1).1 with
+        | none => rfl
+        | some fk => simp only []; rw [if_neg (fun h => h.1 hL)]
+      rw [this, h1snd]
+      unfold st3Of; rw [if_pos hL, hL]
+  · -- second lookup performed
+    have second : (tryFE v.store onRows (Key c v.loc) st1).1 = some (Key c v.loc) ∨
+        (∃ l, l.length = 2 ∧ (tryFE v.store onRows (Key c v.loc) st1).1 = some (Key c l)) →
+        ∃ Ls : Bytes, Ls.length = 2 ∧
+        (secondTry v onRows (marker ++ pack c) (Key c v.loc) (tryFE v.store onRows (Key c v.loc) st1)).1 =
+          (v.store.seekForPrev (Key c Ls)).map (·.1) ∧
+        (secondTry v onRows (marker ++ pack c) (Key c v.loc) (tryFE v.store onRows (Key c v.loc) st1)).2 =
+          st3Of rows onRows v.loc c st1 := by
+      intro h
+      obtain ⟨l, hl, hfk⟩ : ∃ l, l.length = 2 ∧ (tryFE v.store onRows (Key c v.loc) st1).1 = some (Key c l) := by
+        rcases h with h | h
+        · exact ⟨v.loc, hvl, h⟩
+        · exact h
+      have : secondTry v onRows (marker ++ pack c) (Key c v.loc) (tryFE v.store onRows (Key c v.loc) st1) =
+          tryFE v.store onRows (Key c [0, 0]) (tryFE v.store onRows (Key c v.loc) st1).2 := by
+        unfold secondTry
+        rw [hfk]
+        simp only []
+        rw [if_pos ⟨hL, (same_name_cond hco hco hl hvl).2 rfl⟩]
+        rfl
+      refine ⟨[0, 0], rfl, ?_, ?_⟩
+      · rw [this, tryFE_fst]
+      · rw [this, tryFE_snd _ _ honil, hrep.get_rev hco h00, h1snd]
+        unfold st3Of; rw [if_neg hL]
+    -- no second lookup: `r2 = r1`, and `c` has no rows for `[0,0]` and `v.loc`
+    have nosecond : (∀ fk, (tryFE v.store onRows (Key c v.loc) st1).1 = some fk →
+          ¬ (fk.length = (Key c v.loc).length ∧ fk.take ((Key c v.loc).length - 2) = marker ++ pack c)) →
+        rows c.reverse v.loc = [] → rows c.reverse [0, 0] = [] →
+        ∃ Ls : Bytes, Ls.length = 2 ∧
+        (secondTry v onRows (marker ++ pack c) (Key c v.loc) (tryFE v.store onRows (Key c v.loc) st1)).1 =
+          (v.store.seekForPrev (Key c Ls)).map (·.1) ∧
+        (secondTry v onRows (marker ++ pack c) (Key c v.loc) (tryFE v.store onRows (Key c v.loc) st1)).2 =
+          st3Of rows onRows v.loc c st1 := by
+      intro hcond hr1 hr0
+      have : secondTry v onRows (marker ++ pack c) (Key c v.loc) (tryFE v.store onRows (Key c v.loc) st1) =
+          tryFE v.store onRows (Key c v.loc) st1 := by
+        unfold secondTry
+        cases hh : (tryFE v.store onRows (Key c v.loc) st1).1 with
+        | none => rfl
+        | some fk => simp only []; rw [if_neg (fun h => hcond fk hh h.2)]
+      refine ⟨v.loc, hvl, ?_, ?_⟩
+      · rw [this, h1fst]
+      · rw [this, h1snd]
+        unfold st3Of; rw [if_neg hL, hr1, hr0, honil, honil]
+    rcases rr_seek_cases hrep hc hvl with ⟨hA, habs⟩ | hB | ⟨m, l'', vals, hm, hl'', hC, hne, hle, hrl, hmax⟩
+    · apply nosecond
+      · intro fk hfk hcond
+        rw [h1fst] at hfk
+        rcases hA with h | ⟨fk', vals, h, _, hpre⟩
+        · rw [h] at hfk; cases hfk
+        · rw [h] at hfk; cases hfk
+          apply hpre
+          have h2 := congrArg (List.take 2) hcond.2
+          rw [List.take_take] at h2
+          have hmin : min 2 ((Key c v.loc).length - 2) = 2 := by
+            have : (Key c v.loc).length = 2 + ((pack c).length + 2) := by
+              show (marker ++ pack c ++ v.loc).length = _
+              rw [List.length_append, List.length_append, hvl, marker_length]; omega
+            rw [this, pack_length]; omega
+          rw [hmin] at h2
+          rw [h2]; exact take_prefix_of_length marker_length
+      · exact habs c v.loc hco hvl (bytesLe_refl _)
+      · exact habs c [0, 0] hco h00 (by
+          show bytesLe (K marker c [0, 0]) (K marker c v.loc) = true
+          rw [key_le_same_name]; exact zero_loc_le hvl)
+    · apply second
+      left; rw [h1fst, hB]; rfl
+    · by_cases hmc : m = c
+      · apply second
+        right; exact ⟨l'', hl'', by rw [h1fst, hC, hmc]; rfl⟩
+      · apply nosecond
+        · intro fk hfk hcond
+          rw [h1fst, hC] at hfk
+          cases hfk
+          exact hmc ((same_name_cond hm hco hl'' hvl).1 hcond)
+        · exact hrl
+        · exact (skip_lemma (rows := rows) hco hm hle hmax).2 hmc [0, 0] h00 (zero_loc_le hvl)
+
+end Step
+
+
+section StepMain
+variable {σ : Type} {rows : Rows}
+
+theorem findGo_pre_none (v : View) (rev : Bytes) (pre : Nat → σ → Option σ) (onRows : List Bytes → σ → σ)
+    (post : σ → σ × Bool) (fuel qLength : Nat) (st : σ) (h : pre qLength st = none) :
+    findGo v rev pre onRows post (fuel + 1) qLength st = .ok st := by
+  rw [findGo_succ, h]
+
+theorem findGo_succ' (v : View) (pre : Nat → σ → Option σ) (onRows : List Bytes → σ → σ)
+    (post : σ → σ × Bool) (fuel : Nat) (st st1 : σ) {n c : List Bytes} (hc : c <+: n)
+    (hpre : pre (pack c).length st = some st1) :
+    findGo v (pack n) pre onRows post (fuel + 1) (pack c).length st =
+      if ¬ (post (secondTry v onRows (marker ++ pack c) (Key c v.loc)
+          (tryFE v.store onRows (Key c v.loc) st1)).2).2 then
+        .ok (post (secondTry v onRows (marker ++ pack c) (Key c v.loc)
+          (tryFE v.store onRows (Key c v.loc) st1)).2).1
+      else afterPost v (pack n) pre onRows post fuel (pack c).length
+        (secondTry v onRows (marker ++ pack c) (Key c v.loc) (tryFE v.store onRows (Key c v.loc) st1)).1
+        (post (secondTry v onRows (marker ++ pack c) (Key c v.loc)
+          (tryFE v.store onRows (Key c v.loc) st1)).2).1 := by
+  rw [findGo_succ, hpre]
+  dsimp only
+  rw [if_neg (by rw [pack_length]; omega), take_flat_of_prefix hc]
+  have : marker ++ flat c ++ [0] = marker ++ pack c := by rw [pack_eq, List.append_assoc]
+  rw [this]
+  rfl
+
+/-- **Single-step lemma.** One iteration of `find` at the prefix `c` of the reversed query: the row
+callbacks are those of the label walk at `c` (the rows for the client's location, then the untagged
+rows); then either `postIterationCheck` stops the search, or the search stops because nothing is left
+below and no proper ancestor of `c` owns rows, or it goes on at a proper ancestor `c'` and every name
+strictly between `c'` and `c` owns no rows — exactly the names the label walk visits in between. -/
+theorem findGo_step (v : View) (hrep : RepRRV2 v.store rows) (hvl : v.loc.length = 2)
+    (pre : Nat → σ → Option σ) (onRows : List Bytes → σ → σ) (post : σ → σ × Bool)
+    (honil : ∀ st, onRows [] st = st) (fuel : Nat) (st st1 : σ) {n c : List Bytes}
+    (hn : NameOK64 n) (hlen : (pack n).length ≤ 256) (hc : c <+: n)
+    (hpre : pre (pack c).length st = some st1) :
+    ((post (st3Of rows onRows v.loc c st1)).2 = false ∧
+      findGo v (pack n) pre onRows post (fuel + 1) (pack c).length st = .ok (post (st3Of rows onRows v.loc c st1)).1) ∨
+    ((post (st3Of rows onRows v.loc c st1)).2 = true ∧
+      findGo v (pack n) pre onRows post (fuel + 1) (pack c).length st = .ok (post (st3Of rows onRows v.loc c st1)).1 ∧
+      ∀ a, a <+: c → a ≠ c → NoRows rows a) ∨
+    ((post (st3Of rows onRows v.loc c st1)).2 = true ∧
+      ∃ c', c' <+: c ∧ c' ≠ c ∧ (∀ a, a <+: c → a ≠ c → ¬ a <+: c' → NoRows rows a) ∧
+        findGo v (pack n) pre onRows post (fuel + 1) (pack c).length st =
+          findGo v (pack n) pre onRows post fuel (pack c').length (post (st3Of rows onRows v.loc c st1)).1) := by
+  rw [findGo_succ' v pre onRows post fuel st st1 hc hpre]
+  obtain ⟨Ls, hLs, h1, h2⟩ := r2_sem hrep v rfl hvl onRows honil st1 (hn.prefix hc)
+  rw [h1, h2]
+  cases hp : (post (st3Of rows onRows v.loc c st1)).2 with
+  | false =>
+    left
+    exact ⟨rfl, by simp⟩
+  | true =>
+    right
+    simp only [not_true_eq_false, if_false]
+    rcases afterPost_sem hrep v pre onRows post fuel (post (st3Of rows onRows v.loc c st1)).1 hn hlen hc hLs with
+      ⟨h, hno⟩ | ⟨c', hc1, hc2, hsk, h⟩
+    · left; exact ⟨trivial, h, hno⟩
+    · right; exact ⟨trivial, c', hc1, hc2, hsk, h⟩
+
+end StepMain
+
+
+/-! ### `IsAuthoritative`: the two clients -/
+
+abbrev SA := Bool × Bool × Nat × Bool
+
+def preA (qLength : Nat) (st : SA) : Option SA := some (st.1, st.2.1, qLength, st.2.2.2)
+def onRowsA (rows : List Bytes) (st : SA) : SA :=
+  match scanCut rows st.1 st.2.1 with
+  | some (ns, auth) => (ns, auth, st.2.2.1, st.2.2.2)
+  | none => (st.1, st.2.1, st.2.2.1, true)
+def postA (st : SA) : SA × Bool := (st, !st.1)
+
+theorem isAuthoritativeV2_unfold (v : View) (q : Bytes) :
+    isAuthoritativeV2 v q =
+      match reverseWire q with
+      | none => .panic
+      | some rev =>
+        match findGo v rev preA onRowsA postA (rev.length + 2) rev.length (false, false, 0, false) with
+        | .ok (ns, auth, zl, _) => .ok ⟨ns, auth, q.drop (q.length - zl)⟩
+        | .err => .err
+        | .panic => .panic := rfl
+
+def rowOK (row : Bytes) : Bool := match extractRR row false with | .panic => false | _ => true
+def isNS (row : Bytes) : Bool := match extractRR row false with | .row r => decide (r.qtype = 2) | _ => false
+def isSOA (row : Bytes) : Bool := match extractRR row false with | .row r => decide (r.qtype = 6) | _ => false
+def hasNS (rs : List Bytes) : Bool := rs.any isNS
+def hasSOA (rs : List Bytes) : Bool := rs.any isSOA
+/-- no row makes `ExtractRRFromRow` panic -/
+def RowsOK (rs : List Bytes) : Prop := ∀ row ∈ rs, rowOK row = true
+
+theorem scanCut_ok : ∀ (rs : List Bytes) (ns auth : Bool), RowsOK rs →
+    scanCut rs ns auth = some (ns || hasNS rs, auth || hasSOA rs)
+  | [], ns, auth, _ => by simp [scanCut, hasNS, hasSOA]
+  | row :: rs, ns, auth, h => by
+    have hrow := h row (List.mem_cons_self ..)
+    have ih := fun ns auth => scanCut_ok rs ns auth fun r hr => h r (List.mem_cons_of_mem _ hr)
+    unfold scanCut at ih ⊢
+    rw [List.foldlM_cons]
+    unfold rowOK at hrow
+    cases he : extractRR row false with
+    | panic => rw [he] at hrow; cases hrow
+    | mismatch =>
+      simp only [he]
+      show (List.foldlM _ (ns, auth) rs) = _
+      rw [ih]
+      simp [hasNS, hasSOA, isNS, isSOA, he]
+    | row r =>
+      simp only [he]
+      show (List.foldlM _ (ns || decide (r.qtype = 2), auth || decide (r.qtype = 6)) rs) = _
+      rw [ih]
+      simp [hasNS, hasSOA, isNS, isSOA, he, Bool.or_assoc]
+
+theorem onRowsA_nil (st : SA) : onRowsA [] st = st := rfl
+
+theorem onRowsA_ok {rs : List Bytes} (h : RowsOK rs) (ns auth : Bool) (zl : Nat) (pan : Bool) :
+    onRowsA rs (ns, auth, zl, pan) = (ns || hasNS rs, auth || hasSOA rs, zl, pan) := by
+  unfold onRowsA; simp only []; rw [scanCut_ok rs ns auth h]
+
+/-- `(ns, auth)` after the rows of the name `z` visible to a client at `L` -/
+def cutAt (rows : Rows) (L : Bytes) (z : List Bytes) (ns auth : Bool) : Bool × Bool :=
+  if L = [0, 0] then (ns || hasNS (rows z [0, 0]), auth || hasSOA (rows z [0, 0]))
+  else (ns || hasNS (rows z L) || hasNS (rows z [0, 0]), auth || hasSOA (rows z L) || hasSOA (rows z [0, 0]))
+
+theorem st3Of_A {rows : Rows} (hok : ∀ z loc, RowsOK (rows z loc)) (L : Bytes) (c : List Bytes)
+    (ns auth : Bool) (zl : Nat) (pan : Bool) :
+    st3Of rows onRowsA L c (ns, auth, zl, pan) =
+      ((cutAt rows L c.reverse ns auth).1, (cutAt rows L c.reverse ns auth).2, zl, pan) := by
+  unfold st3Of cutAt
+  by_cases hL : L = [0, 0]
+  · rw [if_pos hL, if_pos hL, onRowsA_ok (hok _ _)]
+  · rw [if_neg hL, if_neg hL, onRowsA_ok (hok _ _), onRowsA_ok (hok _ _)]
+
+theorem cutAt_empty {rows : Rows} {L : Bytes} {z : List Bytes} (h1 : rows z L = []) (h0 : rows z [0, 0] = [])
+    (ns auth : Bool) : cutAt rows L z ns auth = (ns, auth) := by
+  unfold cutAt; rw [h1, h0]; simp [hasNS, hasSOA]
+
+section V1A
+variable {s₁ : Store} {rows : Rows}
+
+theorem isAuthV1_step (hrep : RepRRV1 s₁ rows) (hok : ∀ z loc, RowsOK (rows z loc)) (b : Backend)
+    {L : Bytes} (hL : L.length = 2) (z : List Bytes) (hz : NameOK z) (fuel : Nat) (ns auth : Bool) :
+    isAuthoritativeV1 ⟨b, s₁, L⟩ (fuel + 1) (pack z) ns auth =
+      if (cutAt rows L z ns auth).1 = true then
+        .ok ⟨(cutAt rows L z ns auth).1, (cutAt rows L z ns auth).2, pack z⟩
+      else match z with
+        | [] => .ok ⟨(cutAt rows L z ns auth).1, (cutAt rows L z ns auth).2, pack []⟩
+        | _ :: z' => isAuthoritativeV1 ⟨b, s₁, L⟩ fuel (pack z') (cutAt rows L z ns auth).1
+            (cutAt rows L z ns auth).2 := by
+  have h00 : ([0, 0] : Bytes).length = 2 := rfl
+  have g0 : s₁.get ([0, 0] ++ pack z) = rows z [0, 0] := hrep z [0, 0] hz h00
+  have gL : s₁.get (L ++ pack z) = rows z L := hrep z L hz hL
+  rw [isAuthoritativeV1]
+  simp only []
+  -- the two scans
+  have hscan : ∀ (ns1 auth1 : Bool),
+      (if ¬ (auth1 = true ∧ ns1 = true) then scanCut (s₁.get ([0, 0] ++ pack z)) ns1 auth1 else some (ns1, auth1)) =
+        some (ns1 || hasNS (rows z [0, 0]), auth1 || hasSOA (rows z [0, 0])) := by
+    intro ns1 auth1
+    by_cases h : auth1 = true ∧ ns1 = true
+    · rw [if_neg (by simpa using h)]; obtain ⟨h1, h2⟩ := h; subst h1; subst h2; simp
+    · rw [if_pos h, g0, scanCut_ok _ _ _ (hok _ _)]
+  have hcut : ∃ ns1 auth1, scanCut (if L ≠ [0, 0] then s₁.get (L ++ pack z) else []) ns auth = some (ns1, auth1) ∧
+      cutAt rows L z ns auth = (ns1 || hasNS (rows z [0, 0]), auth1 || hasSOA (rows z [0, 0])) := by
+    unfold cutAt
+    by_cases hL0 : L = [0, 0]
+    · refine ⟨ns, auth, ?_, by rw [if_pos hL0]⟩
+      rw [if_neg (by simpa using hL0)]; rfl
+    · refine ⟨ns || hasNS (rows z L), auth || hasSOA (rows z L), ?_, by rw [if_neg hL0]⟩
+      rw [if_pos hL0, gL, scanCut_ok _ _ _ (hok _ _)]
+  obtain ⟨ns1, auth1, hs1, hc⟩ := hcut
+  rw [hs1]
+  simp only []
+  rw [hscan ns1 auth1, hc]
+  simp only []
+  by_cases hns : (ns1 || hasNS (rows z [0, 0])) = true
+  · rw [if_pos hns, if_pos hns]
+  · rw [if_neg hns, if_neg hns]
+    cases z with
+    | nil => simp [pack_nil]
+    | cons x z' =>
+      have hx := hz.head
+      have e : pack (x :: z') = UInt8.ofNat x.length :: (x ++ pack z') := by rw [pack_cons]; rfl
+      rw [e]
+      simp only []
+      rw [if_neg (ofNat_len_ne_zero hx), drop_tok_pack x hx]
+
+theorem isAuthV1_step_nil (hrep : RepRRV1 s₁ rows) (hok : ∀ z loc, RowsOK (rows z loc)) (b : Backend)
+    {L : Bytes} (hL : L.length = 2) (fuel : Nat) (ns auth : Bool) :
+    isAuthoritativeV1 ⟨b, s₁, L⟩ (fuel + 1) (pack []) ns auth =
+      .ok ⟨(cutAt rows L [] ns auth).1, (cutAt rows L [] ns auth).2, [0]⟩ := by
+  rw [isAuthV1_step hrep hok b hL [] NameOK.nil]
+  by_cases h : (cutAt rows L [] ns auth).1 = true
+  · rw [if_pos h]; rfl
+  · rw [if_neg h]; rfl
+
+theorem isAuthV1_step_cons (hrep : RepRRV1 s₁ rows) (hok : ∀ z loc, RowsOK (rows z loc)) (b : Backend)
+    {L : Bytes} (hL : L.length = 2) (x : Bytes) (z : List Bytes) (hz : NameOK (x :: z)) (fuel : Nat)
+    (ns auth : Bool) :
+    isAuthoritativeV1 ⟨b, s₁, L⟩ (fuel + 1) (pack (x :: z)) ns auth =
+      if (cutAt rows L (x :: z) ns auth).1 = true then
+        .ok ⟨(cutAt rows L (x :: z) ns auth).1, (cutAt rows L (x :: z) ns auth).2, pack (x :: z)⟩
+      else isAuthoritativeV1 ⟨b, s₁, L⟩ fuel (pack z) (cutAt rows L (x :: z) ns auth).1
+        (cutAt rows L (x :: z) ns auth).2 := by
+  rw [isAuthV1_step hrep hok b hL (x :: z) hz]
+
+end V1A
+
+section V1Walk
+variable {s₁ : Store} {rows : Rows}
+
+/-- the name `z` (query order) owns no rows for any 2-byte location -/
+def NoRowsF (rows : Rows) (z : List Bytes) : Prop := ∀ loc : Bytes, loc.length = 2 → rows z loc = []
+
+theorem isAuthV1_all_empty (hrep : RepRRV1 s₁ rows) (hok : ∀ z loc, RowsOK (rows z loc)) (b : Backend)
+    {L : Bytes} (hL : L.length = 2) : ∀ (z : List Bytes) (fuel : Nat) (auth : Bool), NameOK z →
+    z.length < fuel → (∀ t1 t2, z = t1 ++ t2 → NoRowsF rows t2) →
+    isAuthoritativeV1 ⟨b, s₁, L⟩ fuel (pack z) false auth = .ok ⟨false, auth, [0]⟩
+  | [], fuel, auth, hz, hf, h => by
+    obtain ⟨f, rfl⟩ : ∃ f, fuel = f + 1 := ⟨fuel - 1, by simp at hf; omega⟩
+    rw [isAuthV1_step_nil hrep hok b hL, cutAt_empty (h [] [] rfl L hL) (h [] [] rfl [0, 0] rfl)]
+  | x :: z, fuel, auth, hz, hf, h => by
+    obtain ⟨f, rfl⟩ : ∃ f, fuel = f + 1 := ⟨fuel - 1, by simp at hf; omega⟩
+    rw [isAuthV1_step_cons hrep hok b hL x z hz,
+      cutAt_empty (h [] (x :: z) rfl L hL) (h [] (x :: z) rfl [0, 0] rfl)]
+    simp only [Bool.false_eq_true, if_false]
+    exact isAuthV1_all_empty hrep hok b hL z f auth hz.tail (by simp at hf; omega)
+      fun t1 t2 ht => h (x :: t1) t2 (by rw [ht]; rfl)
+
+theorem isAuthV1_skip (hrep : RepRRV1 s₁ rows) (hok : ∀ z loc, RowsOK (rows z loc)) (b : Backend)
+    {L : Bytes} (hL : L.length = 2) : ∀ (t z : List Bytes) (fuel : Nat) (auth : Bool), NameOK (t ++ z) →
+    (∀ t1 t2, t = t1 ++ t2 → t2 ≠ [] → NoRowsF rows (t2 ++ z)) →
+    isAuthoritativeV1 ⟨b, s₁, L⟩ (fuel + t.length) (pack (t ++ z)) false auth =
+      isAuthoritativeV1 ⟨b, s₁, L⟩ fuel (pack z) false auth
+  | [], z, fuel, auth, _, _ => rfl
+  | x :: t, z, fuel, auth, hz, h => by
+    have hn : NoRowsF rows (x :: (t ++ z)) := h [] (x :: t) rfl (by simp)
+    show isAuthoritativeV1 ⟨b, s₁, L⟩ (fuel + t.length + 1) (pack (x :: (t ++ z))) false auth = _
+    rw [isAuthV1_step_cons hrep hok b hL x (t ++ z) hz, cutAt_empty (hn L hL) (hn [0, 0] rfl)]
+    simp only [Bool.false_eq_true, if_false]
+    exact isAuthV1_skip hrep hok b hL t z fuel auth hz.tail fun t1 t2 ht hne => h (x :: t1) t2 (by rw [ht]; rfl) hne
+
+end V1Walk
+
+
+section AuthMain
+variable {s₁ s₂ : Store} {rows : Rows}
+
+theorem isAuth_walk (hrep1 : RepRRV1 s₁ rows) (hrep2 : RepRRV2 s₂ rows) (hok : ∀ z loc, RowsOK (rows z loc))
+    (b1 b2 : Backend) {L : Bytes} (hL : L.length = 2) {n : List Bytes} (hn : NameOK64 n)
+    (hlen : (pack n).length ≤ 256) :
+    ∀ (fuel2 : Nat) (c : List Bytes) (auth : Bool) (zl : Nat) (pan : Bool) (fuel1 : Nat),
+      c <+: n → c.length < fuel2 → c.length < fuel1 →
+      ∃ (N A : Bool) (c0 : List Bytes) (pan' : Bool), c0 <+: c ∧
+        findGo ⟨b2, s₂, L⟩ (pack n) preA onRowsA postA fuel2 (pack c).length (false, auth, zl, pan) =
+          .ok (N, A, (pack c0).length, pan') ∧
+        isAuthoritativeV1 ⟨b1, s₁, L⟩ fuel1 (pack c.reverse) false auth =
+          .ok ⟨N, A, if N = true then pack c0.reverse else [0]⟩ ∧
+        (N = false → ∀ a, a <+: c0 → a ≠ c0 → NoRows rows a) := by
+  intro fuel2
+  induction fuel2 with
+  | zero => intro c _ _ _ _ _ h _; simp at h
+  | succ f ih =>
+    intro c auth zl pan fuel1 hc hf2 hf1
+    obtain ⟨g, rfl⟩ : ∃ g, fuel1 = g + 1 := ⟨fuel1 - 1, by omega⟩
+    have hco : NameOK c := hn.ok.prefix hc
+    have hcr : NameOK c.reverse := hco.reverse
+    have hst3 := st3Of_A hok L c false auth (pack c).length pan
+    have hstep := findGo_step (rows := rows) ⟨b2, s₂, L⟩ hrep2 hL preA onRowsA postA onRowsA_nil f
+      (false, auth, zl, pan) (false, auth, (pack c).length, pan) hn hlen hc rfl
+    simp only [hst3, postA] at hstep
+    -- abbreviations
+    generalize hN : (cutAt rows L c.reverse false auth).1 = N at hstep
+    generalize hA : (cutAt rows L c.reverse false auth).2 = A at hstep
+    have hv1 := isAuthV1_step hrep1 hok b1 hL c.reverse hcr g false auth
+    rw [hN, hA] at hv1
+    rcases hstep with ⟨hcont, hgo⟩ | ⟨hcont, hgo, hno⟩ | ⟨hcont, c', hc'1, hc'2, hsk, hgo⟩
+    · -- NS found at `c`
+      have hNt : N = true := by cases N <;> simp_all
+      subst hNt
+      refine ⟨true, A, c, pan, List.prefix_refl c, hgo, ?_, fun h => by cases h⟩
+      rw [hv1, if_pos rfl, if_pos rfl]
+    · have hNf : N = false := by cases N <;> simp_all
+      subst hNf
+      refine ⟨false, A, c, pan, List.prefix_refl c, hgo, ?_, fun _ => hno⟩
+      rw [if_neg (by simp)]
+      cases hz : c.reverse with
+      | nil =>
+        have := isAuthV1_step_nil hrep1 hok b1 hL g false auth
+        rw [← hz, hN, hA] at this
+        rw [← hz]; exact this
+      | cons x z' =>
+        have hcx : c = z'.reverse ++ [x] := List.reverse_eq_cons_iff.1 hz
+        have hzz : NameOK (x :: z') := hz ▸ hcr
+        have := isAuthV1_step_cons hrep1 hok b1 hL x z' hzz g false auth
+        rw [← hz, hN, hA, if_neg (by simp)] at this
+        rw [← hz, this]
+        apply isAuthV1_all_empty hrep1 hok b1 hL z' g A hzz.tail
+        · have := congrArg List.length hcx; simp at this; omega
+        · intro t1 t2 ht loc hl
+          have ha : t2.reverse <+: c := by
+            rw [hcx, ht, List.reverse_append, List.append_assoc]; exact List.prefix_append _ _
+          have hne : t2.reverse ≠ c := by
+            intro e; have := congrArg List.length e
+            rw [hcx, ht] at this; simp at this
+          have := hno t2.reverse ha hne loc hl
+          rwa [List.reverse_reverse] at this
+    · have hNf : N = false := by cases N <;> simp_all
+      subst hNf
+      obtain ⟨u, hu⟩ := hc'1
+      have hune : u ≠ [] := fun e => hc'2 (by rw [← hu, e]; simp)
+      -- `u.reverse = x :: t`
+      obtain ⟨x, t, hxt⟩ : ∃ x t, u.reverse = x :: t := by
+        cases hur : u.reverse with
+        | nil => exact absurd (by simpa using hur) hune
+        | cons x t => exact ⟨x, t, rfl⟩
+      have hu' : u = t.reverse ++ [x] := List.reverse_eq_cons_iff.1 hxt
+      have hz : c.reverse = x :: (t ++ c'.reverse) := by
+        rw [← hu, List.reverse_append, hxt]; rfl
+      have hzz : NameOK (x :: (t ++ c'.reverse)) := hz ▸ hcr
+      have hclen : c.length = c'.length + t.length + 1 := by
+        rw [← hu, hu']; simp; omega
+      have hv := isAuthV1_step_cons hrep1 hok b1 hL x (t ++ c'.reverse) hzz g false auth
+      rw [← hz, hN, hA, if_neg (by simp)] at hv
+      obtain ⟨g', rfl⟩ : ∃ g', g = g' + t.length := ⟨g - t.length, by omega⟩
+      rw [isAuthV1_skip hrep1 hok b1 hL t c'.reverse g' A hzz.tail (by
+        intro t1 t2 ht hne loc hl
+        have ha : (c' ++ t2.reverse) <+: c := by
+          rw [← hu, hu', ht, List.reverse_append, List.append_assoc, ← List.append_assoc c']
+          exact List.prefix_append _ _
+        have hne' : c' ++ t2.reverse ≠ c := by
+          intro e; have := congrArg List.length e
+          rw [hclen, ht] at this; simp at this; omega
+        have hnp : ¬ (c' ++ t2.reverse) <+: c' := by
+          intro h; have := h.length_le; simp at this
+          exact hne (List.eq_nil_of_length_eq_zero (by omega))
+        have := hsk _ ha hne' hnp loc hl
+        simpa using this)] at hv
+      have hc'c : c' <+: c := ⟨u, hu⟩
+      have hc'n : c' <+: n := hc'c.trans hc
+      obtain ⟨N', A', c0, pan', hc0, hgo', hv1', hno'⟩ :=
+        ih c' A (pack c).length pan g' hc'n (by omega) (by omega)
+      refine ⟨N', A', c0, pan', hc0.trans hc'c, ?_, ?_, hno'⟩
+      · rw [hgo]; exact hgo'
+      · rw [hv]; exact hv1'
+
+end AuthMain
+
+
+/-- agreement of the two `IsAuthoritative` results for the query `ql` (labels in query order) -/
+def CutAgree (rows : Rows) (ql : List Bytes) (r2 r1 : R Cut) : Prop :=
+  ∃ c2 c1 : Cut, r2 = .ok c2 ∧ r1 = .ok c1 ∧ c2.ns = c1.ns ∧ c2.auth = c1.auth ∧
+    (c1.ns = true → c2.zoneCut = c1.zoneCut) ∧
+    (c1.ns = false → c1.zoneCut = [0] ∧ ∃ z0, z0 <:+ ql ∧ c2.zoneCut = pack z0 ∧
+      ∀ z, z <:+ z0 → z ≠ z0 → NoRowsF rows z)
+
+theorem drop_pack_suffix {ql c0 : List Bytes} (h : c0 <+: ql.reverse) :
+    (pack ql).drop ((pack ql).length - (pack c0).length) = pack c0.reverse := by
+  obtain ⟨t, ht⟩ := h
+  have hq : ql = t.reverse ++ c0.reverse := by
+    have := congrArg List.reverse ht; simpa using this.symm
+  rw [hq, pack_append]
+  have : (flat t.reverse ++ pack c0.reverse).length - (pack c0).length = (flat t.reverse).length := by
+    rw [List.length_append, pack_reverse_length]; omega
+  rw [this]; simp
+
+theorem isAuthoritativeV2_agrees_V1' {s₁ s₂ : Store} {rows : Rows} (hrep1 : RepRRV1 s₁ rows)
+    (hrep2 : RepRRV2 s₂ rows) (hok : ∀ z loc, RowsOK (rows z loc)) {L : Bytes} (hL : L.length = 2)
+    (ql : List Bytes) (hq : NameOK64 ql) (hlen : (pack ql).length ≤ 256) :
+    CutAgree rows ql (isAuthoritativeV2 ⟨.rdbV2, s₂, L⟩ (pack ql))
+      (isAuthoritativeV1 ⟨.rdbV1, s₁, L⟩ ((pack ql).length + 1) (pack ql) false false) := by
+  have hn : NameOK64 ql.reverse := fun l hl => hq l (List.mem_reverse.1 hl)
+  obtain ⟨N, A, c0, pan', hc0, hgo, hv1, hno⟩ :=
+    isAuth_walk hrep1 hrep2 hok .rdbV1 .rdbV2 hL hn (by rw [pack_reverse_length]; exact hlen)
+      ((pack ql.reverse).length + 2) ql.reverse false 0 false ((pack ql).length + 1) (List.prefix_refl _)
+      (by have := length_le_flat_length ql.reverse; rw [pack_length]; omega)
+      (by have := length_le_flat_length ql; rw [pack_length]; simp; omega)
+  rw [List.reverse_reverse] at hv1
+  rw [isAuthoritativeV2_unfold, reverseWire_pack ql hq.ok]
+  simp only []
+  rw [hgo]
+  simp only []
+  rw [drop_pack_suffix hc0]
+  refine ⟨_, _, rfl, hv1, rfl, rfl, fun h => ?_, fun h => ?_⟩
+  · simp only at h; rw [if_pos h]
+  · simp only at h
+    refine ⟨by rw [if_neg (by simp [h])], c0.reverse, ?_, rfl, fun z hz hne => ?_⟩
+    · have := List.reverse_suffix.2 hc0
+      rwa [List.reverse_reverse] at this
+    · have h1 : z.reverse <+: c0 := by
+        have := List.reverse_prefix.2 hz; rwa [List.reverse_reverse] at this
+      have h2 : z.reverse ≠ c0 := fun e => hne (by rw [← e, List.reverse_reverse])
+      intro loc hl
+      have := hno h z.reverse h1 h2 loc hl
+      rwa [List.reverse_reverse] at this
+
+theorem CutAgree.eq_of_ns {rows : Rows} {ql : List Bytes} {r2 r1 : R Cut} (h : CutAgree rows ql r2 r1)
+    (hns : ∀ c, r1 = .ok c → c.ns = true) : r2 = r1 := by
+  obtain ⟨c2, c1, rfl, rfl, h1, h2, h3, _⟩ := h
+  have := h3 (hns c1 rfl)
+  cases c2; cases c1; simp_all
+
 
 end DnsVerif.RevOrder
